@@ -30,6 +30,25 @@ Streams
                       caught); the next reconstruct(batch_size=None) must visit every training pattern exactly once per
                       epoch in ceil(n_train/b) batches and be bit-identical to the twin that never made the call; the
                       accept/reject decision is tied to the model's `applyCall`
+  aborted     bitwise exception safety of the LOOP: one object makes a valid run, then a reconstruct() call that is interrupted by an exception
+                      from a callee in the middle of an epoch (training batch j >= 1 / 0 of iteration i, before or after the loss of the
+                      batch was computed; a validation batch; after the iteration was recorded; RuntimeError / MemoryError /
+                      FloatingPointError / KeyboardInterrupt; with or without reset; its own batch size), caught by the caller; then a
+                      valid reconstruct() WITHOUT reset and a reset run through one of the public routes.  Schedule clauses and
+                      "recorded loss = mean over the batches yielded in THAT epoch" on every later call, frozen variant: recorded
+                      loss of divisor batch sizes = full-batch loss; the reset run reproduces the first run and a fresh object bit for
+                      bit; every call — also what the interrupted call leaves behind — is tied to the model's `reconstructF`, the
+                      object's NumPy generator (its state) to the modelled number of draws
+  empty-train exact   random split that takes every pattern: ZeroDivisionError branch of reconstruct vs model (no verdict)
+  rngset      exact   RNGMixin.rng = <int 0/1/True/small/2**32±/2**64+/128 bit/negative | np Generator fresh or used | torch Generator |
+                      float | str | list | None>, then _reset_rng(): accept/reject, generator state, torch seed vs model `rngSet`/`resetRngFull`
+  cfgseq      exact   sequences of batch_size / val_ratio / val_mode assignments (None, 0, -0.0, 0.4, 0.5, 2.5, 3.5, True, "3", [3], …) on one
+                      object vs the model session after every call; then a run whose schedule must be that of the STORED settings
+  signature   exact   names and defaults of the property's parameters of SimpleBatcher / reconstruct / subdivide_batches / generate_batches
+The batcher stream draws seeds from {0, 1, 2**32+5, random}, the seed as int or np.random.Generator, batch sizes None / 0 / NEGATIVE (model
+`iterPy`/`lenPy`/`valLenPy`), int val_ratio, and in 12 % of the cases abandons an epoch after 1–3 batches before the recorded epochs.
+Seed 0 (falsy) is generated in every stream, in every form.  The history stream lets continuations use another batch size than the reset
+runs, applies the schedule clauses to EVERY call and compares the generator state after every call.
 The numeric stream also compares every way of asking for "one batch holding the whole training set" (batch_size = n_train,
 num_gpts, > num_gpts, default) — with a validation split these differ — for equal loss / recorded loss / gradients.
 The property predicate (partition, exactly-once, len, mean-of-batches = full batch, identical
@@ -40,17 +59,23 @@ import math
 LEVEL = "proof"
 MANIFEST_ENTRY = {
     "category": "proof",
-    "text": "Lean 4 theorems over an executable model of SimpleBatcher / subdivide_batches / the batch-fraction scaling of error_estimate (the RNG's permutations are inputs, so all shuffles are covered): train/val split is a partition for every n, n_val, grid step, mode and permutation; every epoch yields each training index exactly once for every batch size >= 1; number of batches yielded = ceil(|train|/b) = __len__; i-th batch = order[i*b:(i+1)*b]; validation pass likewise; subdivide_batches sizes sum to n, differ by <= 1, respect max_batch, generate_batches ranges tile [start,start+n); over R the mean of batch losses (and, over any field/vector space, of any additive per-pattern quantity such as gradients) equals the full-batch value when b | n, with a counterexample for b not dividing n; user supplied train/val lists that are a partition satisfy every schedule clause (only one list given raises); a state-machine model of reconstruct/reset_recon/_reset_rng (generator = seed + call position with an arbitrary draw oracle, arbitrary numerical step function): every recorded epoch loss is the sum over the yielded batches divided by their number for every b >= 1 (also non-dividing), validation losses are recorded once per iteration iff the validation set is non-empty, and reconstruct(reset=True) after ANY history of calls on a seeded object returns exactly the state, loss history and schedule of the fresh object (same_seed_same_run, reset_run_independent_of_history); every entry point of a reset is the same operation (reset_routes_agree: reconstruct(reset=True) = reset_recon(); reconstruct(reset=False), also after any history); a session model of the validating setters (batch_size, val_ratio, val_mode, rng): a rejected configuration call stores nothing and the next run is the run the object would have made without it (rejected_call_is_noop, run_after_rejected_call). Tied to the code on every run by exact enumeration of the real SimpleBatcher/subdivide_batches and by per-batch losses/gradients recorded inside the real Ptychography.reconstruct loop on tiny problems.",
-    "note": "Proved: partition, exactly-once, counts, contiguity, loss/gradient scaling algebra. Measured only (real runs, tiny problems, autograd=True, CPU float32): equality of mean per-batch loss/gradients with the full batch for every divisor batch size and all five loss types, and bitwise identical loss histories for equal seeds / after reset=True. Trusted: NumPy Generator determinism (twin generator reproduces the drawn permutations), torch autograd. The analytic-gradient path (autograd=False) normalises each batch by its own probe overlap and is only measured, not judged.",
+    "text": "Lean 4 theorems over an executable model of SimpleBatcher / subdivide_batches / the batch-fraction scaling of error_estimate (the RNG's permutations are inputs, so all shuffles are covered): train/val split is a partition for every n, n_val, grid step, mode and permutation; every epoch yields each training index exactly once for every batch size >= 1; number of batches yielded = ceil(|train|/b) = __len__; i-th batch = order[i*b:(i+1)*b]; validation pass likewise; subdivide_batches sizes sum to n, differ by <= 1, respect max_batch, generate_batches ranges tile [start,start+n); over R the mean of batch losses (and, over any field/vector space, of any additive per-pattern quantity such as gradients) equals the full-batch value when b | n, with a counterexample for b not dividing n; user supplied train/val lists that are a partition satisfy every schedule clause (only one list given raises); a state-machine model of reconstruct/reset_recon/_reset_rng (generator = seed + call position with an arbitrary draw oracle, arbitrary numerical step function): every recorded epoch loss is the sum over the yielded batches divided by their number for every b >= 1 (also non-dividing), validation losses are recorded once per iteration iff the validation set is non-empty, and reconstruct(reset=True) after ANY history of calls on a seeded object returns exactly the state, loss history and schedule of the fresh object (same_seed_same_run, reset_run_independent_of_history); every entry point of a reset is the same operation (reset_routes_agree: reconstruct(reset=True) = reset_recon(); reconstruct(reset=False), also after any history); a session model of the validating setters (batch_size, val_ratio, val_mode, rng): a rejected configuration call stores nothing and the next run is the run the object would have made without it (rejected_call_is_noop, run_after_rejected_call). Growth round 5: SimpleBatcher with Python integers (batch_size None / 0 / negative, shuffle flag, rng setter): len = number yielded whenever both are reported, for EVERY integer batch size (len_eq_yielded_every_int_batch_size), batch_size None or >= n is one batch holding the whole training set (whole_set_batch); exactly-once at the level of whole reconstruct calls for every object state and configuration (reconstruct_epochs_visit_once); a model of reconstruct calls that do NOT return (exception from a callee in training batch j / validation batch k of iteration i / after the record; ZeroDivisionError on an empty training set): an interrupted epoch leaves nothing in the loss histories (interrupted_call_keeps_completed_epochs_only), reconstruct(reset=True) after ANY history including calls that raised reproduces the fresh object (reset_run_after_interrupted_calls), a run without reset after interrupted calls records honest means (run_after_interrupted_calls_records_means), the fault model refines the plain one (reconstructF_refines_reconstruct); every accepted form of seed — 0 included — is replayed by _reset_rng, idempotently, and equals the state after construction for int / torch / unused NumPy generators (reset_replays_every_seed_form). Tied to the code on every run by exact enumeration of the real SimpleBatcher/subdivide_batches, by per-batch losses/gradients recorded inside the real Ptychography.reconstruct loop on tiny problems, by interrupted-call histories with injected exceptions and by the generator state after every call.",
+    "note": "Proved: partition, exactly-once (also per whole reconstruct call), counts (every integer batch size), contiguity, loss/gradient scaling algebra, reset/interrupted-call/seed-form state machine. Measured only (real runs, tiny problems, autograd=True, CPU float32): equality of mean per-batch loss/gradients with the full batch for every divisor batch size and all five loss types, and bitwise identical loss histories for equal seeds / after reset=True. Trusted: NumPy Generator determinism (twin generator reproduces the drawn permutations), torch autograd. The analytic-gradient path (autograd=False) normalises each batch by its own probe overlap and is only measured, not judged.",
     "technique": "Lean 4 proof (induction over batches, permutation/partition lemmas, field algebra) + model-vs-implementation correspondence",
 }
 RULE = ("batcher stream: one case = one SimpleBatcher (n, batch size, val_ratio, mode, seed, shuffle) iterated for two epochs + validation pass; "
         "distinct non-trivial = distinct (n, b, n_val, mode, shuffle) with n >= 2; subdivide stream: distinct (n, num_batches|max_batch); "
-        "numeric/determinism streams: distinct (scan, roi, loss type, batch size, val split, probes)")
-TRUSTED = ["NumPy Generator determinism: np.random.default_rng(seed) reproduces the permutations SimpleBatcher draws",
+        "numeric/determinism streams: distinct (scan, roi, loss type, batch size, val split, probes); aborted stream: one case = one history (valid run, interrupted call, run without reset, "
+        "reset run, fresh object) + one model-tie evaluation per call, distinct (scan, loss, batch sizes, split, fault kind/iteration/batch/raise point, exception class, reset flag, frozen); "
+        "rngset: distinct (form, seed, draws consumed); cfgseq: distinct call sequences")
+TRUSTED = ["exception injection: instance-level wrappers around dset.forward / backward / step_schedulers raise the exception; a real failure of a callee is assumed to leave the same Python-level state behind as the injected one at the same point",
+           "the model's generator is (seed, number of draws); what a draw returns is an oracle of (generator, list) — the real generator's state also depends on the LENGTHS drawn before; the harness replays the real sequence with a twin generator and compares its state with the object's after every call",
+           "NumPy Generator determinism: np.random.default_rng(seed) reproduces the permutations SimpleBatcher draws",
            "torch autograd / optimizers (gradient invariance and determinism of real runs are measured, not proved)",
            "Lean Float = IEEE binary64 (n_val = round(n*ratio) and k = round(1/ratio) are computed in the model exactly as in Python)"]
-ASSUMPTIONS = ["rejected-call stream: values handed to the setters are ints, floats, strings, lists; string val_ratio values are non-numeric; a call that is accepted (e.g. batch_size=2.5 is rounded, val_ratio=1.0 is stored) carries no claim; a reconstruct() call that fails on its loss_type has already installed optimizers ('zz') or advanced the generator ('l3_amplitude', rejected inside the first batch) — only the reset clause is judged after it",
+ASSUMPTIONS = ["aborted stream: the frozen-parameter comparison with the full-batch loss is judged only when the split is the same in every call (val_ratio 0 or grid mode: in random mode every reconstruct call draws a new split by design); what an interrupted call leaves behind (history length, generator position) is compared with the model only — the property gives no verdict on it; batch sizes < 1, an empty training set (ZeroDivisionError) and val_len() for negative batch sizes are outside the property's quantifier and compared with the model only",
+               "a NumPy Generator handed to rng= is fresh (a generator that was already used makes the first run start later in the stream than the run after a reset — modelled in rngSet, not judged)",
+               "rejected-call stream: values handed to the setters are ints, floats, strings, lists; string val_ratio values are non-numeric; a call that is accepted (e.g. batch_size=2.5 is rounded, val_ratio=1.0 is stored) carries no claim; a reconstruct() call that fails on its loss_type has already installed optimizers ('zz') or advanced the generator ('l3_amplitude', rejected inside the first batch) — only the reset clause is judged after it",
                "invariance of losses/gradients is judged for autograd=True (the default); with autograd=False the 'gradient' is an overlap-normalised update direction whose normalisation depends on the batch — its deviation is reported under measured.analytic_grad_rel_dev, no verdict",
                "'same seed' means every rng= argument (Ptychography, object model, probe model) receives the same seed, each in the same form (int, fresh np.random.Generator, fresh torch.Generator); unseeded objects (rng=None) carry no determinism claim and are not generated",
                "user supplied train_indices/val_indices are not validated by the code: the partition clauses are judged only when the supplied lists are a partition (other inputs are compared with the model only)",
@@ -94,6 +119,19 @@ def py_split(n, ratio, mode, perm):
     return (sel, rest) if inv else (rest, sel)
 
 
+class EndlessIterator(RuntimeError):
+    """an epoch / validation pass that yields more batches than there are patterns (a harness guard: never iterate forever)"""
+
+
+def capped(it, cap):
+    out = []
+    for x in it:
+        out.append([int(i) for i in x])
+        if len(out) > cap:
+            raise EndlessIterator(f"more than {cap} batches")
+    return out
+
+
 def _attempt(f):
     try:
         return f()
@@ -132,17 +170,15 @@ def batcher_case(ctx, drv_reqs, case):
     epochs = []
     for _ in range(2):
         orders.append([int(x) for x in g.permutation(B.train_indices)] if shuffle else list(train))
-        ep = []
         try:
-            for batch in B:     # (list(B) would call __len__ first as a length hint)
-                ep.append([int(x) for x in batch])
+            ep = capped(iter(B), 2 * n + 8)     # (list(B) would call __len__ first as a length hint)
         except Exception as e:  # noqa
             epochs = type(e).__name__
             break
         epochs.append(ep)
     view["epochs"] = epochs
     view["len"] = _attempt(lambda: len(B))
-    view["val_batches"] = _attempt(lambda: [[int(x) for x in batch] for batch in B.iter_val()])
+    view["val_batches"] = _attempt(lambda: capped(B.iter_val(), 2 * n + 8))
     view["val_len"] = _attempt(lambda: int(B.val_len()))
     view["has_validation"] = bool(B.has_validation)
     req = {"op": "batcher_py", "n": n, "ratio": f2b(ratio), "mode": mode, "perm": perm, "b": b, "orders": orders}
@@ -160,6 +196,12 @@ def batcher_predicate(ctx, case, view):
                                 "missing": sorted(set(range(n)) - set(train) - set(val))},
                       required="disjoint, duplicate free, union = 0..n-1")
     eff_b = n if b is None else b
+    if "EndlessIterator" in (view["epochs"], view["val_batches"]):
+        ctx.extra["endless_iterator"] = True
+        if eff_b >= 1:
+            ctx.pred_fail("epoch-not-exactly-once", "an epoch (or the validation pass) yields more batches than there are patterns", case,
+                          observed="iteration stopped by the harness after 2n+8 batches", required="ceil(n_train / b) batches")
+        return
     if eff_b < 1 or not isinstance(view["epochs"], list):
         return          # batch sizes < 1 are outside the property's quantifier (compared with the model only)
     for ep in view["epochs"]:
@@ -335,9 +377,9 @@ def run_user_stream(ctx, drv, cases):
             train = [int(x) for x in B.train_indices]
             view = {"train": train, "val": [int(x) for x in B.val_indices], "epochs": []}
             for _ in range(2):
-                view["epochs"].append([[int(x) for x in batch] for batch in B])
+                view["epochs"].append(capped(iter(B), 2 * n + 8))
                 orders.append([int(x) for x in g.permutation(B.train_indices)] if c["shuffle"] else list(train))
-            view.update({"len": len(B), "val_batches": [[int(x) for x in batch] for batch in B.iter_val()], "val_len": B.val_len(),
+            view.update({"len": len(B), "val_batches": capped(B.iter_val(), 2 * n + 8), "val_len": B.val_len(),
                          "has_validation": bool(B.has_validation)})
             view = {"ok": view}
         except Exception as e:  # noqa
@@ -1491,6 +1533,8 @@ def run(ctx):
     try:
         cases = gen_batcher_cases(ctx)
         run_batcher_stream(ctx, drv, cases)
+        if ctx.extra.get("endless_iterator"):
+            return      # SimpleBatcher does not terminate for some input: the real reconstruct loop would hang the run
         run_user_stream(ctx, drv, gen_user_cases(ctx))
         run_subdivide_stream(ctx, drv)
         rng = ctx.rng.fork(2)
@@ -1532,7 +1576,8 @@ def run(ctx):
             guarded(ctx, aborted_case, {"stream": "aborted"}, ctx, drv, cfg, b)
         for i in range(ctx.n(2, 6)):
             cfg = gen_numeric_cfg(rng, i)
-            cfg["val_ratio"], cfg["val_mode"] = [0.97, 0.99][i % 2], "random"
+            N = cfg["scan"][0] * cfg["scan"][1]
+            cfg["val_ratio"], cfg["val_mode"] = [1.0 - 0.25 / N, 0.999][i % 2], "random"      # round(N * ratio) = N for every N <= 36, ratio < 1
             guarded(ctx, empty_train_case, {"stream": "empty-train"}, ctx, drv, cfg, rng.choice([1, 3, 4]))
         ctx.exhaustive = None
         ctx.extra["exhaustive_note"] = ("both tiers enumerate every (n<=40, b<=45, ratio=k/16, mode) for SimpleBatcher (thorough: also every (n<=200, b<=n+5) with sampled ratios) and every "
